@@ -1,6 +1,6 @@
 ------------------------------- MODULE EyeTrace -------------------------------
 (* C17, binding T.  Events (ppm = parts per million of b - a unless stated):
-     est   [finite, mu0e, mu1e, s0, s1, sigma, thr_in, tdist_ppm, topt_mid_ppm, i, i_int, sps]
+     est   [finite, mu0e, mu1e, s0, s1, sigma, thr_in, tdist_ppm, topt_mid_ppm, i, i_int, sps, grid, populated]
              mu0e = (mu0 - a), mu1e = (mu1 - b), s0/s1/sigma in ppm of (b-a); tdist_ppm = (t_right - t_left) in ppm of a slot;
              topt_mid_ppm = t_opt - (t_left + t_right)/2 in ppm of a slot
      equiv [finite, dmu0, dmu1, ds0, ds1, dthr, dtl, dtr, dto, same_i]
@@ -16,8 +16,11 @@ Clauses(e) ==
         (IF 2 * e.s0 < e.sigma \/ e.s0 > 2 * e.sigma + 30000 THEN {"s0-band"} ELSE {}) \cup
         (IF 2 * e.s1 < e.sigma \/ e.s1 > 2 * e.sigma + 30000 THEN {"s1-band"} ELSE {}) \cup
         (IF ~e.thr_in THEN {"mu0<threshold<mu1"} ELSE {}) \cup
-        (IF Abs(e.tdist_ppm - 1000000) > 100000 THEN {"crossings-one-slot-apart"} ELSE {}) \cup
-        (IF Abs(e.topt_mid_ppm) > 20000 THEN {"t_opt-midway"} ELSE {}) \cup
+        \* the crossing instants are cluster centres of the transitions: judged on data with both transitions well populated (`populated`;
+        \* with 3 % marks - 32 transitions in 512 slots - the unchanged estimator was measured at 0.898 and 1.125 in 2 of 20 runs)
+        (IF e.populated /\ Abs(e.tdist_ppm - 1000000) > 100000 THEN {"crossings-one-slot-apart"} ELSE {}) \cup
+        \* all three instants lie on the eye's time grid (`grid` points per slot): midway up to one grid step (never less than 2 % of a slot)
+        (IF e.populated /\ Abs(e.topt_mid_ppm) > (IF 1000000 \div e.grid > 20000 THEN 1000000 \div e.grid ELSE 20000) THEN {"t_opt-midway"} ELSE {}) \cup
         (IF ~e.i_int \/ e.i < 0 \/ e.i >= e.sps THEN {"sampling-index-in-[0,sps)"} ELSE {})
     [] e.kind = "equiv" ->
         IF ~e.finite THEN {"finite-estimates"} ELSE
